@@ -11,7 +11,7 @@ import (
 type BatchHeader struct {
 	OID        OID
 	ObjectType ObjectType
-	ObjectSize counts.Count32
+	ObjectSize counts.Count64
 }
 
 var missingHeader = BatchHeader{
@@ -49,6 +49,6 @@ func ParseBatchHeader(spec string, header string) (BatchHeader, error) {
 	return BatchHeader{
 		OID:        oid,
 		ObjectType: ObjectType(words[1]),
-		ObjectSize: counts.NewCount32(size),
+		ObjectSize: counts.NewCount64(size),
 	}, nil
 }
